@@ -11,6 +11,7 @@
 //	$N                   zero-based position in the rule as written (all alternatives of nested
 //	                     choices and optional parts are numbered, a list is one position)
 //	$$                   value of the left-hand side (read back after the assignment)
+//	${N.offset}, ${N.endoffset}   range of the symbol at zero-based position N (lists included), -1 when absent
 //	${alias.offset}      start of the first present symbol under the alias, -1 if none
 //	${alias.endoffset}   end of the last present symbol under the alias, -1 if none
 //	${first().offset}    start of the first symbol of this expansion (-1 if nothing precedes the action)
@@ -33,6 +34,7 @@ const (
 	KGroup // parenthesised alternatives: Sub = KSeq alternatives (>=1)
 	KList  // Sub[0]: body KSeq
 	KCmd
+	KMarker // state marker .name: occupies no stack slot and no position
 )
 
 // Expr is a node of a rule body.
@@ -40,6 +42,7 @@ type Expr struct {
 	Kind  Kind
 	Sub   []*Expr
 	Sym   int
+	Flag  bool // KNonterm referring to a templated nonterminal: the argument passed for F
 	Alias string
 	Sep   int  // KList: separator terminal or -1
 	Plus  bool // KList
@@ -109,16 +112,19 @@ type Cmd struct {
 	anch   bool // directly followed by a symbol: never merged into a later action
 	early  bool
 	InList bool
+	Marked bool // the rule contains state markers
 }
 
 type Rule struct {
 	Body  *Expr // KSeq, ends with the end-of-rule Cmd
 	Scope *Scope
+	Cond  int // templated nonterminal: 0 always, 1 only for [F], -1 only for [!F]
 }
 
 type Nonterm struct {
 	Name   string
 	StrVal bool // value type string instead of *Val
+	Templ  bool // declared as Name<F>
 	Rules  []*Rule
 }
 
@@ -134,6 +140,7 @@ type Grammar struct {
 	Terms    []Term
 	Nonterms []*Nonterm
 	Inputs   []int
+	HasFlag  bool // %flag F; declared
 	NCmds    int
 	Forms    map[string]int // reference forms generated
 }
@@ -179,6 +186,13 @@ func (g *Grammar) exprText(e *Expr, b *strings.Builder) {
 		b.WriteString(g.termRef(e.Sym))
 	case KNonterm:
 		b.WriteString(g.Nonterms[e.Sym].Name)
+		if g.Nonterms[e.Sym].Templ {
+			if e.Flag {
+				b.WriteString("<+F>")
+			} else {
+				b.WriteString("<~F>")
+			}
+		}
 	case KSeq:
 		for i, s := range e.Sub {
 			if i > 0 {
@@ -221,6 +235,9 @@ func (g *Grammar) exprText(e *Expr, b *strings.Builder) {
 	case KCmd:
 		b.WriteString(g.cmdText(e.Cmd))
 		return
+	case KMarker:
+		fmt.Fprintf(b, ".m%d", e.Sym)
+		return
 	}
 	if e.Alias != "" {
 		fmt.Fprintf(b, "[%s]", e.Alias)
@@ -247,21 +264,34 @@ func (g *Grammar) Text(pkg string) string {
 		b.WriteString(g.Nonterms[in].Name)
 	}
 	b.WriteString(";\n\n")
+	if g.HasFlag {
+		b.WriteString("%flag F;\n\n")
+	}
 	for _, n := range g.Nonterms {
 		typ := "*Val"
 		if n.StrVal {
 			typ = "string"
 		}
-		fmt.Fprintf(&b, "%s {%s} :\n", n.Name, typ)
+		name := n.Name
+		if n.Templ {
+			name += "<F>"
+		}
+		fmt.Fprintf(&b, "%s {%s} :\n", name, typ)
 		for k, ru := range n.Rules {
 			if k == 0 {
 				b.WriteString("    ")
 			} else {
 				b.WriteString("  | ")
 			}
+			switch {
+			case n.Templ && ru.Cond > 0:
+				b.WriteString("[F] ")
+			case n.Templ && ru.Cond < 0:
+				b.WriteString("[!F] ")
+			}
 			onlyCmd := true
 			for _, s := range ru.Body.Sub {
-				if s.Kind != KCmd {
+				if s.Kind != KCmd && s.Kind != KMarker {
 					onlyCmd = false
 				}
 			}
